@@ -172,3 +172,5 @@
 (declare-fun tzS (Time) String)
 (declare-fun zoneOffS (Int) Int)
 (declare-fun locOff (Int Int) Int)
+; a time of day after moving by x nanoseconds: wrapped into [0, 24h)
+(define-fun wrapDayNs ((x Int)) Int (mod x 86400000000000))
